@@ -74,8 +74,9 @@ def build(ctx, res):
     vtext, vitems = VL.value_module(ctx, extra_value_fns=["payload_u64"])
     src = ctx.src(RT)
     items = {n: src.item("fn", n) for n in ["mask", "sign_extend", "get_range", "get", "derive_seed"]}
-    items["get"].replace(O9_OLD, O9_NEW, count=1, rule="O9")
-    items["get_range"].replace(O9_OLD, O9_NEW, count=2, rule="O9")
+    # every occurrence (at least one) - a refactoring that changes the number of draws is still extracted and then has to meet the contract
+    items["get"].sub(re.escape(O9_OLD), O9_NEW.replace("\\", "\\\\"), rule="O9")
+    items["get_range"].sub(re.escape(O9_OLD), O9_NEW.replace("\\", "\\\\"), rule="O9")
     for n in ("get", "get_range"):
         if "rng" in items[n].render() or "with_rng" in items[n].render():
             raise ExtractError("%s still mentions the generator after rule O9" % n)
